@@ -213,7 +213,7 @@ mutual
 /-- the condition objects the documented grammar can denote (`allowCds = false`: inside `cds(...)`) -/
 def shapeOk (allowCds : Bool) : Cond → Bool
   | .single _ _ => true
-  | .score _ _ _ => true
+  | .score _ _ s => decide (0 ≤ s)
   | .minimum _ _ opts => allowCds && !opts.isEmpty
   | .cds _ subs => allowCds && !subs.isEmpty && shapeOks false subs && !loneIdentifier subs
   | .group _ subs => !subs.isEmpty && shapeOks allowCds subs
